@@ -24,6 +24,9 @@ func main() {
 	replay := flag.String("replay", "", "replay file to re-execute")
 	only := flag.String("only", "", "run only the scenario with this name")
 	list := flag.Bool("list", false, "list scenarios")
+	jobs := flag.Bool("jobs", false, "print the job list as JSON")
+	serve := flag.Bool("serve", false, "read jobs from stdin, write reports to stdout")
+	deadline := flag.Int64("deadline", 0, "unix nanoseconds after which no new work is started")
 	trace0 := flag.Int("trace0", 0, "print the first N operations of the default execution of -only scenario")
 	flag.Parse()
 	if *replay != "" {
@@ -31,6 +34,19 @@ func main() {
 	}
 	if *list {
 		h.List(*prop, *tier)
+		return
+	}
+	if *jobs {
+		b, _ := json.Marshal(h.Jobs(*prop, *tier))
+		fmt.Println(string(b))
+		return
+	}
+	if *serve {
+		var dl time.Time
+		if *deadline > 0 {
+			dl = time.Unix(0, *deadline)
+		}
+		h.Serve(*prop, *tier, *replays, dl)
 		return
 	}
 	if *trace0 > 0 {
